@@ -514,12 +514,20 @@ theorem makeTxMsg_len {c : Cfg} {a : Addr} {i : Nat} {d : Bytes} {msg : CanMsg}
       injection h with h; subst h
       exact ⟨pad_len hpd, dlcOf_le hdl⟩
 
-/-- the parts of the state the limiter logic depends on are untouched -/
+/-- the frames handed to `txfn` so far, newest first: the `Ev.tx` entries of the log -/
+def txEvents : List Ev → List (Nat × CanMsg)
+  | [] => []
+  | .tx t m :: l => (t, m) :: txEvents l
+  | _ :: l => txEvents l
+
+/-- the parts of the state the limiter logic depends on are untouched, and nothing was handed
+    to `txfn` -/
 structure Same (s s' : State) : Prop where
   rl : s'.rl = s.rl
   now : s'.now = s.now
   cfg : s'.cfg = s.cfg
   addr : s'.addr = s.addr
+  txlog : txEvents s'.log = txEvents s.log
 
 /-- an emitted data frame passed the admission test: a length `len ≥ 1` not larger than the
     (padded) CAN payload was compared with `allowed`; the payload is at most 64 bytes. -/
@@ -536,44 +544,60 @@ theorem adm_iff (a : Nat) (msg : CanMsg) :
 def StandbyOk (s : State) : Prop :=
   ∀ msg, s.standby = some msg → 1 ≤ msg.data.length ∧ msg.data.length ≤ 64
 
+theorem same_refl (s : State) : Same s s := ⟨rfl, rfl, rfl, rfl, rfl⟩
+theorem same_trans {a b c : State} (h1 : Same a b) (h2 : Same b c) : Same a c :=
+  ⟨h2.rl.trans h1.rl, h2.now.trans h1.now, h2.cfg.trans h1.cfg, h2.addr.trans h1.addr,
+    h2.txlog.trans h1.txlog⟩
+theorem same_raise (s : State) (e : PyExc) : Same s (s.raise e) := ⟨rfl, rfl, rfl, rfl, rfl⟩
+theorem same_error (s : State) (e : Err) : Same s (s.error e) := ⟨rfl, rfl, rfl, rfl, rfl⟩
+theorem same_stopSending (s : State) (b : Bool) : Same s (s.stopSending b) := by
+  unfold stopSending; constructor <;> (split <;> rfl)
+theorem same_startRxFcTimer (s : State) : Same s s.startRxFcTimer := ⟨rfl, rfl, rfl, rfl, rfl⟩
+theorem same_startRxCfTimer (s : State) : Same s s.startRxCfTimer := ⟨rfl, rfl, rfl, rfl, rfl⟩
+@[simp] theorem stopSending_standby (s : State) (b : Bool) : (s.stopSending b).standby = none := by
+  unfold stopSending; rfl
+@[simp] theorem stopSending_txState (s : State) (b : Bool) : (s.stopSending b).txState = .idle := by
+  unfold stopSending; rfl
+
 /-- what `startTx` builds, independently of the limiter -/
 inductive Built where
   | fail (s : State)
   | sf (s : State) (len : Nat) (msg : CanMsg)
   | ff (s : State) (len : Nat) (msg : CanMsg)
 
+def buildSf (s : State) (r : Req) (sizeOnFirst : Bool) : Built :=
+  match s.consumeActive r r.size true with
+  | (_, _, none) => .fail (((s.consumeActive r r.size true).1.error .BadGenerator).stopSending false)
+  | (s1, _, some payload) =>
+    let hdr : Bytes := if sizeOnFirst then [u8 payload.length] else [0, u8 payload.length]
+    let msgData := s1.addr.tx.txPrefix ++ hdr ++ payload
+    match makeTxMsg s1.cfg s1.addr (s1.addr.tx.txId r.tat) msgData with
+    | none => .fail (s1.raise .ValueError)
+    | some msg => .sf s1 msgData.length msg
+
+def buildFf (s : State) (r : Req) (pl : Nat) : Built :=
+  let total := r.size
+  let short := total ≤ 0xFFF
+  let dataLen := if short then s.cfg.txDl - 2 - pl else s.cfg.txDl - 6 - pl
+  match s.consumeActive r dataLen true with
+  | (s1, _, none) => .fail ((s1.error .BadGenerator).stopSending false)
+  | (s1, _, some payload) =>
+    let hdr : Bytes :=
+      if short then [u8 (0x10 + total / 256 % 16), u8 (total % 256)]
+      else [0x10, 0x00, u8 (total / 16777216 % 256), u8 (total / 65536 % 256), u8 (total / 256 % 256), u8 (total % 256)]
+    let msgData := s1.addr.tx.txPrefix ++ hdr ++ payload
+    let s2 := { s1 with txSeq := 1 }
+    match makeTxMsg s2.cfg s2.addr (s2.addr.tx.txId .physical) msgData with
+    | none => .fail (s2.raise .ValueError)
+    | some msg => .ff s2 msgData.length msg
+
 def buildTx (s : State) (r : Req) : Built :=
   let pl := s.txPrefixLen
   let bigMin := match s.cfg.txMinLen with | some m => m > 8 | none => false
   let sizeOnFirst := (r.remaining + pl ≤ 7) && !bigMin
   let off := if sizeOnFirst then 1 else 2
-  let total := r.size
-  if total + off + pl ≤ s.cfg.txDl then
-    let (s, _, res) := s.consumeActive r total true
-    match res with
-    | none => .fail ((s.error .BadGenerator).stopSending false)
-    | some payload =>
-      let hdr : Bytes := if sizeOnFirst then [u8 payload.length] else [0, u8 payload.length]
-      let msgData := s.addr.tx.txPrefix ++ hdr ++ payload
-      match makeTxMsg s.cfg s.addr (s.addr.tx.txId r.tat) msgData with
-      | none => .fail (s.raise .ValueError)
-      | some msg => .sf s msgData.length msg
-  else
-    let s := { s with txFrameLen := total }
-    let short := total ≤ 0xFFF
-    let dataLen := if short then s.cfg.txDl - 2 - pl else s.cfg.txDl - 6 - pl
-    let (s, _, res) := s.consumeActive r dataLen true
-    match res with
-    | none => .fail ((s.error .BadGenerator).stopSending false)
-    | some payload =>
-      let hdr : Bytes :=
-        if short then [u8 (0x10 + total / 256 % 16), u8 (total % 256)]
-        else [0x10, 0x00, u8 (total / 16777216 % 256), u8 (total / 65536 % 256), u8 (total / 256 % 256), u8 (total % 256)]
-      let msgData := s.addr.tx.txPrefix ++ hdr ++ payload
-      let s := { s with txSeq := 1 }
-      match makeTxMsg s.cfg s.addr (s.addr.tx.txId .physical) msgData with
-      | none => .fail (s.raise .ValueError)
-      | some msg => .ff s msgData.length msg
+  if r.size + off + pl ≤ s.cfg.txDl then buildSf s r sizeOnFirst
+  else buildFf { s with txFrameLen := r.size } r pl
 
 /-- `startTx` = build the frame, then let the limiter decide between sending and parking -/
 def dispatch (a : Nat) : Built → State × Option CanMsg
@@ -586,28 +610,82 @@ def dispatch (a : Nat) : Built → State × Option CanMsg
     else ({ s with standby := some msg, txState := .ffStandby }, none)
 
 theorem startTx_eq (s : State) (r : Req) (a : Nat) : s.startTx r a = dispatch a (buildTx s r) := by
-  unfold startTx buildTx
+  unfold startTx buildTx buildSf buildFf
   grind [dispatch]
 
 theorem consumeActive_frame (s : State) (r : Req) (n : Nat) (e : Bool) :
-    (s.consumeActive r n e).1.rl = s.rl ∧ (s.consumeActive r n e).1.now = s.now ∧
-    (s.consumeActive r n e).1.cfg = s.cfg ∧ (s.consumeActive r n e).1.addr = s.addr ∧
     (s.consumeActive r n e).1.standby = s.standby ∧ (s.consumeActive r n e).1.txState = s.txState ∧
     (s.consumeActive r n e).1.exc = s.exc := by
   unfold consumeActive
   grind [emit]
 
-theorem buildTx_spec (s : State) (r : Req) :
-    match buildTx s r with
-    | .fail s' => Same s s' ∧ (s'.standby = none ∨ s'.standby = s.standby) ∧
-        (s'.txState = .idle ∨ s'.txState = s.txState)
-    | .sf s1 len msg => Same s s1 ∧ s1.standby = s.standby ∧ s1.txState = s.txState ∧
-        1 ≤ len ∧ len ≤ msg.data.length ∧ msg.data.length ≤ 64
-    | .ff s1 len msg => Same s s1 ∧ s1.standby = s.standby ∧ s1.txState = s.txState ∧
-        1 ≤ len ∧ len ≤ msg.data.length ∧ msg.data.length ≤ 64 := by
-  have hc := consumeActive_frame
+theorem same_consumeActive (s : State) (r : Req) (n : Nat) (e : Bool) :
+    Same s (s.consumeActive r n e).1 := by
+  unfold consumeActive
+  simp only []
+  split <;> exact ⟨rfl, rfl, rfl, rfl, rfl⟩
+
+/-- what `buildTx` guarantees: the limiter-relevant state is untouched, and a built frame has an
+    unpadded length `len ≥ 1` and a padded CAN payload of `len … 64` bytes -/
+def BuiltOk (s : State) : Built → Prop
+  | .fail s' => Same s s' ∧ (s'.standby = none ∨ s'.standby = s.standby) ∧
+      (s'.txState = .idle ∨ s'.txState = s.txState)
+  | .sf s1 len msg => Same s s1 ∧ s1.standby = s.standby ∧ s1.txState = s.txState ∧
+      1 ≤ len ∧ len ≤ msg.data.length ∧ msg.data.length ≤ 64
+  | .ff s1 len msg => Same s s1 ∧ s1.standby = s.standby ∧ s1.txState = s.txState ∧
+      1 ≤ len ∧ len ≤ msg.data.length ∧ msg.data.length ≤ 64
+
+theorem buildSf_spec (s : State) (r : Req) (b : Bool) : BuiltOk s (buildSf s r b) := by
+  have hs := same_consumeActive s r r.size true
+  have hc := consumeActive_frame s r r.size true
+  unfold buildSf
+  rcases hca : s.consumeActive r r.size true with ⟨s1, r1, _ | payload⟩ <;> rw [hca] at hs hc <;>
+    simp only [] at hs hc ⊢
+  · exact ⟨same_trans hs (same_trans (same_error _ _) (same_stopSending _ _)), Or.inl (by simp),
+      Or.inl (by simp)⟩
+  · split
+    · exact ⟨same_trans hs (same_raise _ _), Or.inr hc.1, Or.inr hc.2.1⟩
+    · rename_i msg hm
+      have hl := makeTxMsg_len hm
+      refine ⟨hs, hc.1, hc.2.1, ?_, hl.1, hl.2⟩
+      simp only [List.length_append]
+      split <;> simp <;> omega
+
+theorem buildFf_spec (s : State) (r : Req) (pl : Nat) : BuiltOk s (buildFf s r pl) := by
+  unfold buildFf
+  simp only []
+  have hs := same_consumeActive s r
+    (if r.size ≤ 0xFFF then s.cfg.txDl - 2 - pl else s.cfg.txDl - 6 - pl) true
+  have hc := consumeActive_frame s r
+    (if r.size ≤ 0xFFF then s.cfg.txDl - 2 - pl else s.cfg.txDl - 6 - pl) true
+  rcases hca : s.consumeActive r (if r.size ≤ 0xFFF then s.cfg.txDl - 2 - pl else s.cfg.txDl - 6 - pl) true
+    with ⟨s1, r1, _ | payload⟩ <;> rw [hca] at hs hc <;> simp only [] at hs hc ⊢
+  · exact ⟨same_trans hs (same_trans (same_error _ _) (same_stopSending _ _)), Or.inl (by simp),
+      Or.inl (by simp)⟩
+  · split
+    · exact ⟨same_trans hs ⟨rfl, rfl, rfl, rfl, rfl⟩, Or.inr hc.1, Or.inr hc.2.1⟩
+    · rename_i msg hm
+      have hl := makeTxMsg_len hm
+      refine ⟨same_trans hs ⟨rfl, rfl, rfl, rfl, rfl⟩, hc.1, hc.2.1, ?_, hl.1, hl.2⟩
+      simp only [List.length_append]
+      split <;> simp <;> omega
+
+theorem builtOk_ite (s : State) (c : Prop) [Decidable c] (x y : Built) (hx : BuiltOk s x)
+    (hy : BuiltOk s y) : BuiltOk s (if c then x else y) := by
+  split <;> assumption
+
+theorem builtOk_of_same (s s0 : State) (b : Built) (h : Same s s0) (h1 : s0.standby = s.standby)
+    (h2 : s0.txState = s.txState) (hb : BuiltOk s0 b) : BuiltOk s b := by
+  cases b <;> simp only [BuiltOk] at hb ⊢
+  · exact ⟨same_trans h hb.1, by rw [← h1]; exact hb.2.1, by rw [← h2]; exact hb.2.2⟩
+  · exact ⟨same_trans h hb.1, hb.2.1.trans h1, hb.2.2.1.trans h2, hb.2.2.2⟩
+  · exact ⟨same_trans h hb.1, hb.2.1.trans h1, hb.2.2.1.trans h2, hb.2.2.2⟩
+
+theorem buildTx_spec (s : State) (r : Req) : BuiltOk s (buildTx s r) := by
   unfold buildTx
-  grind [stopSending, State.error, emit, raise, makeTxMsg_len, Same]
+  exact builtOk_ite s _ _ _ (buildSf_spec s r _)
+    (builtOk_of_same s { s with txFrameLen := r.size } _ ⟨rfl, rfl, rfl, rfl, rfl⟩ rfl rfl
+      (buildFf_spec _ r _))
 
 theorem consume_len (r : Req) (n : Nat) (e : Bool) (d : Bytes) (h : (r.consume n e).2 = some d) :
     d.length ≤ n := by
@@ -715,21 +793,16 @@ theorem cfFinish_spec (rbs : Nat) (r' : Req) (x : State × Option CanMsg × Bool
       (cfFinish rbs r' x).1.txState = x.1.txState) ∧
     ((cfFinish rbs r' x).2.1 = none ∨ (cfFinish rbs r' x).2.1 = x.2.1) := by
   unfold cfFinish
-  refine ⟨?_, ?_, ?_, ?_⟩
-  · constructor <;> grind [stopSending, State.error, emit, startRxFcTimer]
-  · grind [stopSending, State.error, emit, startRxFcTimer]
-  · grind [stopSending, State.error, emit, startRxFcTimer]
-  · grind [stopSending, State.error, emit, startRxFcTimer]
-
-
-theorem same_refl (s : State) : Same s s := ⟨rfl, rfl, rfl, rfl⟩
-theorem same_trans {a b c : State} (h1 : Same a b) (h2 : Same b c) : Same a c :=
-  ⟨h2.rl.trans h1.rl, h2.now.trans h1.now, h2.cfg.trans h1.cfg, h2.addr.trans h1.addr⟩
-theorem same_raise (s : State) (e : PyExc) : Same s (s.raise e) := ⟨rfl, rfl, rfl, rfl⟩
-
-theorem same_consumeActive (s : State) (r : Req) (n : Nat) (e : Bool) : Same s (s.consumeActive r n e).1 := by
-  have := consumeActive_frame s r n e
-  exact ⟨this.1, this.2.1, this.2.2.1, this.2.2.2.1⟩
+  split
+  · exact ⟨same_refl _, Or.inr rfl, Or.inr (Or.inr rfl), Or.inl rfl⟩
+  · split
+    · split
+      · exact ⟨same_trans (same_error _ _) (same_stopSending _ _), Or.inl (by simp), Or.inl (by simp),
+          Or.inr rfl⟩
+      · exact ⟨same_stopSending _ _, Or.inl (by simp), Or.inl (by simp), Or.inr rfl⟩
+    · split
+      · exact ⟨⟨rfl, rfl, rfl, rfl, rfl⟩, Or.inr rfl, Or.inr (Or.inl rfl), Or.inr rfl⟩
+      · exact ⟨same_refl _, Or.inr rfl, Or.inr (Or.inr rfl), Or.inr rfl⟩
 
 theorem transmitCf_spec (s : State) (a : Nat) :
     Same s (s.transmitCf a).1 ∧
@@ -750,7 +823,7 @@ theorem transmitCf_spec (s : State) (a : Nat) :
         have hs := same_consumeActive s r (min (s.cfg.txDl - 1 - s.txPrefixLen) r.remaining) false
         have hl := consumeActive_len s r (min (s.cfg.txDl - 1 - s.txPrefixLen) r.remaining) false
         split
-        · exact ⟨same_trans hs (same_raise _ _), Or.inr hc.2.2.2.2.1, Or.inr (Or.inr hc.2.2.2.2.2.1), by simp⟩
+        · exact ⟨same_trans hs (same_raise _ _), Or.inr hc.1, Or.inr (Or.inr hc.2.1), by simp⟩
         · rename_i payload hpay
           have h1 := cfFrame_spec (s.consumeActive r (min (s.cfg.txDl - 1 - s.txPrefixLen) r.remaining) false).1 payload
           have h2 := cfFinish_spec rbs (s.consumeActive r (min (s.cfg.txDl - 1 - s.txPrefixLen) r.remaining) false).2.1
@@ -767,4 +840,1084 @@ theorem transmitCf_spec (s : State) (a : Nat) :
               omega
       · exact ⟨same_refl _, Or.inr rfl, Or.inr (Or.inr rfl), by simp⟩
     · exact ⟨same_refl _, Or.inr rfl, Or.inr (Or.inr rfl), by simp⟩
+/-- `processTx`, part 1: the pending Flow Control requested by the receive side -/
+def txPend (s : State) : State × Option (Option CanMsg) :=
+  if s.pendingFc then
+    let s := { s with pendingFc := false }
+    match s.pendingFcStatus with
+    | none => (s.raise .AttributeError, some none)
+    | some st =>
+      let s := if st = 0 then s.startRxCfTimer else s
+      if !s.cfg.listen then
+        match makeFlowControl s.cfg s.addr st with
+        | none => (s.raise .ValueError, some none)
+        | some msg => (s, some (some msg))
+      else (s, none)
+  else (s, none)
+
+/-- part 2: the received Flow Control -/
+def txFcIn (s : State) : State × Bool :=
+  let fc := s.lastFc
+  let s := { s with lastFc := none }
+  match fc with
+  | some f => if f.status = 2 then (((s.stopSending false).error .Overflow), true) else (s.handleFc f, false)
+  | none => (s, false)
+
+/-- part 3: N_Bs timeout -/
+def txGuard (s : State) : State :=
+  if s.timerFc.timedOut s.now then (s.error .FlowControlTimeout).stopSending false else s
+
+/-- part 4: a depleted request ends the transmission -/
+def txDone (s : State) : State :=
+  if s.txState ≠ .idle && (match s.active with | some r => r.depleted | none => false) && s.standby.isNone
+  then s.stopSending true else s
+
+/-- part 5: the state machine -/
+def txFsm (allowed : Nat) (s : State) : State × Option CanMsg × Bool :=
+  match s.txState with
+  | .idle =>
+    let (s, out) := s.readTxQueue allowed s.txQueue
+    (s, out, false)
+  | .sfStandby | .ffStandby =>
+    match s.standby with
+    | some msg =>
+      if msg.data.length ≤ allowed then
+        let s := { s with standby := none }
+        if s.txState = .ffStandby then
+          (({ s.startRxFcTimer with txState := .waitFc }), some msg, false)
+        else (s.stopSending true, some msg, false)
+      else (s, none, false)
+    | none => (s, none, false)
+  | .waitFc => (s, none, false)
+  | .transmitCf => s.transmitCf allowed
+
+/-- part 6: tell the limiter what was sent -/
+def txAccount (x : State × Option CanMsg × Bool) : State × Option CanMsg × Bool :=
+  if x.1.exc.isSome then (x.1, none, false) else
+  match x.2.1 with
+  | some msg => ({ x.1 with rl := x.1.rl.inform x.1.now msg.data.length }, some msg, x.2.2)
+  | none => (x.1, none, x.2.2)
+
+theorem processTx_eq (s : State) : s.processTx =
+    match txPend s with
+    | (s1, some none) => (s1, none, false)
+    | (s1, some (some msg)) => (s1, some msg, true)
+    | (s1, none) =>
+      match txFcIn s1 with
+      | (s2, true) => (s2, none, false)
+      | (s2, false) =>
+        if (txGuard s2).txState ≠ .idle && (txGuard s2).active.isNone then
+          ((txGuard s2).raise .AssertionError, none, false)
+        else txAccount (txFsm (s.rl.allowedBytes s.cfg.rlBitMax) (txDone (txGuard s2))) := by
+  rfl
+
+/-- the transmit FSM is not in a rate-limiter standby state -/
+def NoStandbySt (s : State) : Prop := s.txState ≠ .sfStandby ∧ s.txState ≠ .ffStandby
+
+
+theorem startTx_spec (s : State) (r : Req) (a : Nat) :
+    Same s (s.startTx r a).1 ∧ (StandbyOk s → StandbyOk (s.startTx r a).1) ∧
+    (∀ msg, (s.startTx r a).2 = some msg → Adm a msg) ∧
+    (64 ≤ a → NoStandbySt s → NoStandbySt (s.startTx r a).1) := by
+  rw [startTx_eq]
+  have hb := buildTx_spec s r
+  simp only [adm_iff]
+  unfold StandbyOk NoStandbySt
+  rcases hbt : buildTx s r with s' | ⟨s1, len, msg⟩ | ⟨s1, len, msg⟩ <;> rw [hbt] at hb <;>
+    simp only [dispatch, BuiltOk] at hb ⊢
+  · refine ⟨hb.1, ?_, by simp, ?_⟩ <;> grind
+  · obtain ⟨hs, h1, h2, h3, h4, h5⟩ := hb
+    split
+    · refine ⟨⟨hs.rl, hs.now, hs.cfg, hs.addr, hs.txlog⟩, ?_, by simp, ?_⟩
+      · intro _ m hm; simp at hm; subst hm; omega
+      · intro ha; omega
+    · refine ⟨same_trans hs (same_stopSending _ _), ?_, ?_, ?_⟩
+      · intro _ m hm; simp at hm
+      · intro m hm; simp at hm; subst hm; omega
+      · intro _ _; simp
+  · obtain ⟨hs, h1, h2, h3, h4, h5⟩ := hb
+    split
+    · refine ⟨same_trans hs ⟨rfl, rfl, rfl, rfl, rfl⟩, ?_, ?_, ?_⟩
+      · intro h m hm; simp [startRxFcTimer] at hm; exact h m (h1 ▸ hm)
+      · intro m hm; simp at hm; subst hm; omega
+      · intro _ _; simp [startRxFcTimer]
+    · refine ⟨⟨hs.rl, hs.now, hs.cfg, hs.addr, hs.txlog⟩, ?_, by simp, ?_⟩
+      · intro _ m hm; simp at hm; subst hm; omega
+      · intro ha; omega
+
+theorem readTxQueue_spec (s : State) (a : Nat) (q : List Req) :
+    Same s (s.readTxQueue a q).1 ∧ (StandbyOk s → StandbyOk (s.readTxQueue a q).1) ∧
+    (∀ msg, (s.readTxQueue a q).2 = some msg → Adm a msg) ∧
+    (64 ≤ a → NoStandbySt s → NoStandbySt (s.readTxQueue a q).1) := by
+  fun_induction readTxQueue s a q with
+  | case1 s => exact ⟨⟨rfl, rfl, rfl, rfl, rfl⟩, fun h => h, by simp, fun _ h => h⟩
+  | case2 s r rest s' hd ih =>
+    obtain ⟨i1, i2, i3, i4⟩ := ih
+    exact ⟨⟨i1.rl, i1.now, i1.cfg, i1.addr, i1.txlog⟩, fun h => i2 h, i3, fun ha h => i4 ha h⟩
+  | case3 s r rest s' hd =>
+    obtain ⟨i1, i2, i3, i4⟩ := startTx_spec s' r a
+    exact ⟨⟨i1.rl, i1.now, i1.cfg, i1.addr, i1.txlog⟩, fun h => i2 h, i3, fun ha h => i4 ha h⟩
+
+/-- what the non-FSM parts of `processTx` preserve -/
+structure Keep (s s' : State) : Prop where
+  same : Same s s'
+  standby : s'.standby = none ∨ s'.standby = s.standby
+  st : NoStandbySt s → NoStandbySt s'
+
+theorem keep_refl (s : State) : Keep s s := ⟨same_refl s, Or.inr rfl, fun h => h⟩
+
+theorem keep_trans {a b c : State} (h1 : Keep a b) (h2 : Keep b c) : Keep a c := by
+  refine ⟨same_trans h1.same h2.same, ?_, fun h => h2.st (h1.st h)⟩
+  rcases h2.standby with h | h
+  · exact Or.inl h
+  · rcases h1.standby with h' | h'
+    · exact Or.inl (h.trans h')
+    · exact Or.inr (h.trans h')
+
+theorem Keep.standbyOk {s s' : State} (h : Keep s s') (hs : StandbyOk s) : StandbyOk s' := by
+  intro m hm
+  rcases h.standby with h' | h'
+  · rw [h'] at hm; simp at hm
+  · exact hs m (h' ▸ hm)
+
+theorem keep_stopSending (s : State) (b : Bool) : Keep s (s.stopSending b) :=
+  ⟨same_stopSending s b, Or.inl (by simp), fun _ => by simp [NoStandbySt]⟩
+
+theorem keep_error (s : State) (e : Err) : Keep s (s.error e) :=
+  ⟨same_error s e, Or.inr rfl, fun h => h⟩
+
+theorem keep_raise (s : State) (e : PyExc) : Keep s (s.raise e) :=
+  ⟨same_raise s e, Or.inr rfl, fun h => h⟩
+
+theorem keep_handleFc (s : State) (f : FcFrame) : Keep s (s.handleFc f) := by
+  unfold handleFc
+  refine ⟨?_, ?_, ?_⟩
+  · constructor <;> grind [stopSending, State.error, emit, startRxFcTimer, txEvents]
+  · grind [stopSending, State.error, emit, startRxFcTimer]
+  · unfold NoStandbySt; grind [stopSending, State.error, emit, startRxFcTimer]
+
+theorem keep_txPend (s : State) : Keep s (txPend s).1 := by
+  unfold txPend
+  refine ⟨?_, ?_, ?_⟩
+  · constructor <;> grind [raise, startRxCfTimer]
+  · grind [raise, startRxCfTimer]
+  · unfold NoStandbySt; grind [raise, startRxCfTimer]
+
+theorem keep_txFcIn (s : State) : Keep s (txFcIn s).1 := by
+  unfold txFcIn
+  simp only []
+  split
+  · split
+    · exact keep_trans (b := { s with lastFc := none }) ⟨⟨rfl, rfl, rfl, rfl, rfl⟩, Or.inr rfl, fun h => h⟩
+        (keep_trans (keep_stopSending _ _) (keep_error _ _))
+    · exact keep_trans (b := { s with lastFc := none }) ⟨⟨rfl, rfl, rfl, rfl, rfl⟩, Or.inr rfl, fun h => h⟩
+        (keep_handleFc _ _)
+  · exact ⟨⟨rfl, rfl, rfl, rfl, rfl⟩, Or.inr rfl, fun h => h⟩
+
+theorem keep_txGuard (s : State) : Keep s (txGuard s) := by
+  unfold txGuard
+  split
+  · exact keep_trans (keep_error _ _) (keep_stopSending _ _)
+  · exact keep_refl s
+
+theorem keep_txDone (s : State) : Keep s (txDone s) := by
+  unfold txDone
+  by_cases h : (s.txState ≠ .idle && (match s.active with | some r => r.depleted | none => false) &&
+      s.standby.isNone) = true
+  · rw [if_pos h]; exact keep_stopSending _ _
+  · rw [if_neg h]; exact keep_refl s
+
+theorem txFsm_standby (a : Nat) (s : State) (hsb : StandbyOk s)
+    (hst : s.txState = .sfStandby ∨ s.txState = .ffStandby) :
+    let x : State × Option CanMsg × Bool :=
+      match s.standby with
+      | some msg =>
+        if msg.data.length ≤ a then
+          let s := { s with standby := none }
+          if s.txState = .ffStandby then
+            (({ s.startRxFcTimer with txState := .waitFc }), some msg, false)
+          else (s.stopSending true, some msg, false)
+        else (s, none, false)
+      | none => (s, none, false)
+    Same s x.1 ∧ StandbyOk x.1 ∧ (∀ msg, x.2.1 = some msg → Adm a msg) ∧
+    (64 ≤ a → NoStandbySt s → NoStandbySt x.1) := by
+  have hno : ¬ NoStandbySt s := by
+    unfold NoStandbySt; rcases hst with h | h <;> simp [h]
+  intro x
+  rcases hmsg : s.standby with _ | msg
+  · simp only [x, hmsg]
+    exact ⟨same_refl s, hsb, by simp, fun _ h => h⟩
+  · have hlen := hsb msg hmsg
+    by_cases hle : msg.data.length ≤ a
+    · have hadm : Adm a msg := (adm_iff a msg).mpr ⟨by omega, hlen.1, hlen.2⟩
+      by_cases hff : s.txState = .ffStandby
+      · simp only [x, hmsg, hle, hff, if_true]
+        refine ⟨⟨rfl, rfl, rfl, rfl, rfl⟩, ?_, ?_, fun _ h => absurd h hno⟩
+        · intro m hm; simp [startRxFcTimer] at hm
+        · intro m hm; simp at hm; subst hm; exact hadm
+      · simp only [x, hmsg, hle, hff, if_true, if_false]
+        refine ⟨same_trans (b := { s with standby := none }) ⟨rfl, rfl, rfl, rfl, rfl⟩ (same_stopSending _ _),
+            ?_, ?_, fun _ h => absurd h hno⟩
+        · intro m hm; simp at hm
+        · intro m hm; simp at hm; subst hm; exact hadm
+    · simp only [x, hmsg, hle, if_false]
+      exact ⟨same_refl s, hsb, by simp, fun _ h => h⟩
+
+theorem txFsm_spec (a : Nat) (s : State) (hsb : StandbyOk s) :
+    Same s (txFsm a s).1 ∧ StandbyOk (txFsm a s).1 ∧
+    (∀ msg, (txFsm a s).2.1 = some msg → Adm a msg) ∧
+    (64 ≤ a → NoStandbySt s → NoStandbySt (txFsm a s).1) := by
+  unfold txFsm
+  split
+  · obtain ⟨i1, i2, i3, i4⟩ := readTxQueue_spec s a s.txQueue
+    exact ⟨i1, i2 hsb, i3, i4⟩
+  · rename_i hst
+    exact txFsm_standby a s hsb (Or.inl hst)
+  · rename_i hst
+    exact txFsm_standby a s hsb (Or.inr hst)
+  · exact ⟨same_refl s, hsb, by simp, fun _ h => h⟩
+  · obtain ⟨i1, i2, i3, i4⟩ := transmitCf_spec s a
+    refine ⟨i1, ?_, i4, ?_⟩
+    · intro m hm
+      rcases i2 with h | h
+      · rw [h] at hm; simp at hm
+      · exact hsb m (h ▸ hm)
+    · rename_i hst
+      intro _ _
+      unfold NoStandbySt
+      rcases i3 with h | h | h <;> simp [h, hst]
+
+theorem txPend_kind (s : State) :
+    match (txPend s).2 with
+    | some none => True
+    | some (some msg) => ∃ st, s.pendingFc = true ∧ s.cfg.listen = false ∧ s.pendingFcStatus = some st ∧
+        makeFlowControl s.cfg s.addr st = some msg
+    | none => s.pendingFc = false ∨ s.cfg.listen = true := by
+  unfold txPend
+  grind [raise, startRxCfTimer]
+
+theorem txAccount_spec (x : State × Option CanMsg × Bool) :
+    (txAccount x).1.now = x.1.now ∧ (txAccount x).1.cfg = x.1.cfg ∧ (txAccount x).1.addr = x.1.addr ∧
+    (txAccount x).1.standby = x.1.standby ∧ (txAccount x).1.txState = x.1.txState ∧
+    (txAccount x).1.log = x.1.log ∧
+    (((txAccount x).2.1 = none ∧ (txAccount x).1.rl = x.1.rl) ∨
+     (∃ msg, x.2.1 = some msg ∧ (txAccount x).2.1 = some msg ∧
+        (txAccount x).1.rl = x.1.rl.inform x.1.now msg.data.length ∧ (txAccount x).1.exc = none)) := by
+  unfold txAccount
+  split
+  · simp
+  · rename_i hexc
+    split
+    · rename_i msg hm
+      refine ⟨rfl, rfl, rfl, rfl, rfl, rfl, Or.inr ⟨msg, hm, rfl, rfl, ?_⟩⟩
+      simpa using hexc
+    · simp
+
+/-- one `processTx` pass, as seen by the rate limiter -/
+structure PassSpec (s : State) (r : State × Option CanMsg × Bool) : Prop where
+  now : r.1.now = s.now
+  cfg : r.1.cfg = s.cfg
+  addr : r.1.addr = s.addr
+  txlog : txEvents r.1.log = txEvents s.log
+  standbyOk : StandbyOk r.1
+  noStandby : 64 ≤ s.rl.allowedBytes s.cfg.rlBitMax → NoStandbySt s → NoStandbySt r.1
+  kind :
+    (r.2.1 = none ∧ r.1.rl = s.rl) ∨
+    (∃ st msg, s.pendingFc = true ∧ s.cfg.listen = false ∧ s.pendingFcStatus = some st ∧
+      makeFlowControl s.cfg s.addr st = some msg ∧ r.2.1 = some msg ∧ r.1.rl = s.rl) ∨
+    (∃ msg, (s.pendingFc = false ∨ s.cfg.listen = true) ∧ r.2.1 = some msg ∧
+      Adm (s.rl.allowedBytes s.cfg.rlBitMax) msg ∧ r.1.rl = s.rl.inform s.now msg.data.length ∧
+      r.1.exc = none)
+
+theorem PassSpec.of_keep {s s' : State} (h : Keep s s') (hsb : StandbyOk s) : PassSpec s (s', none, false) :=
+  ⟨h.same.now, h.same.cfg, h.same.addr, h.same.txlog, h.standbyOk hsb, fun _ hn => h.st hn, Or.inl ⟨rfl, h.same.rl⟩⟩
+
+theorem processTx_spec (s : State) (hsb : StandbyOk s) : PassSpec s s.processTx := by
+  rw [processTx_eq]
+  have hk1 := keep_txPend s
+  have hkind := txPend_kind s
+  rcases hp : txPend s with ⟨s1, _ | _ | msg⟩ <;> rw [hp] at hk1 hkind <;> simp only [] at hk1 hkind ⊢
+  · -- FSM part
+    have hk2 := keep_txFcIn s1
+    rcases hf : txFcIn s1 with ⟨s2, _ | _⟩ <;> rw [hf] at hk2 <;> simp only [] at hk2 ⊢
+    · have hk3 := keep_trans (keep_trans hk1 hk2) (keep_txGuard s2)
+      split
+      · exact PassSpec.of_keep (keep_trans hk3 (keep_raise _ _)) hsb
+      · have hk4 := keep_trans hk3 (keep_txDone (txGuard s2))
+        have hsb4 := hk4.standbyOk hsb
+        obtain ⟨f1, f2, f3, f4⟩ := txFsm_spec (s.rl.allowedBytes s.cfg.rlBitMax) (txDone (txGuard s2)) hsb4
+        obtain ⟨a1, a2, a3, a4, a5, a7, a6⟩ :=
+          txAccount_spec (txFsm (s.rl.allowedBytes s.cfg.rlBitMax) (txDone (txGuard s2)))
+        have hsame := same_trans hk4.same f1
+        refine ⟨a1.trans hsame.now, a2.trans hsame.cfg, a3.trans hsame.addr, (by rw [a7]; exact hsame.txlog),
+          ?_, ?_, ?_⟩
+        · intro m hm; exact f2 m (a4 ▸ hm)
+        · intro ha hn
+          have := f4 ha (hk4.st hn)
+          unfold NoStandbySt at this ⊢
+          rw [a5]; exact this
+        · rcases a6 with ⟨h1, h2⟩ | ⟨msg, h1, h2, h3, h4⟩
+          · exact Or.inl ⟨h1, h2.trans hsame.rl⟩
+          · refine Or.inr (Or.inr ⟨msg, hkind, h2, f3 msg h1, ?_, h4⟩)
+            rw [h3, hsame.rl, hsame.now]
+    · exact PassSpec.of_keep (keep_trans hk1 hk2) hsb
+  · exact PassSpec.of_keep hk1 hsb
+  · obtain ⟨st, h1, h2, h3, h4⟩ := hkind
+    exact ⟨hk1.same.now, hk1.same.cfg, hk1.same.addr, hk1.same.txlog, hk1.standbyOk hsb, fun _ hn => hk1.st hn,
+      Or.inr (Or.inl ⟨st, msg, h1, h2, h3, h4, rfl, hk1.same.rl⟩)⟩
+/-! ## Part D — `rxLoop`, `txLoop`, `processLoop`, sessions -/
+
+/-- what the receive path and the non-`process` API calls preserve: they never touch the limiter,
+    the parked frame, the transmit FSM state, nor hand a frame to `txfn`; time only advances -/
+structure RxKeep (s s' : State) : Prop where
+  rl : s'.rl = s.rl
+  cfg : s'.cfg = s.cfg
+  addr : s'.addr = s.addr
+  standby : s'.standby = s.standby
+  txState : s'.txState = s.txState
+  now : s.now ≤ s'.now
+  txlog : txEvents s'.log = txEvents s.log
+
+theorem rxKeep_refl (s : State) : RxKeep s s := ⟨rfl, rfl, rfl, rfl, rfl, Nat.le_refl _, rfl⟩
+theorem rxKeep_trans {a b c : State} (h1 : RxKeep a b) (h2 : RxKeep b c) : RxKeep a c :=
+  ⟨h2.rl.trans h1.rl, h2.cfg.trans h1.cfg, h2.addr.trans h1.addr, h2.standby.trans h1.standby,
+    h2.txState.trans h1.txState, Nat.le_trans h1.now h2.now, h2.txlog.trans h1.txlog⟩
+
+theorem log_error (s : State) (e : Err) : txEvents (s.error e).log = txEvents s.log := rfl
+theorem log_deliver (s : State) (p : Bytes) : txEvents (s.deliver p).log = txEvents s.log := rfl
+theorem log_stopReceiving (s : State) : (s.stopReceiving).log = s.log := rfl
+theorem log_requestFc (s : State) (n : Nat) : (s.requestFc n).log = s.log := rfl
+theorem log_startRxCfTimer (s : State) : (s.startRxCfTimer).log = s.log := rfl
+
+theorem txlog_startReception (s : State) (len : Nat) (d : Bytes) (dl : Nat) :
+    txEvents (s.startReception len d dl).1.log = txEvents s.log := by
+  unfold startReception
+  grind [log_error, log_deliver, log_stopReceiving, log_requestFc, log_startRxCfTimer]
+
+theorem txlog_processRx (s : State) (m : CanMsg) :
+    txEvents (s.processRx m).1.log = txEvents s.log := by
+  unfold processRx
+  grind [log_error, log_deliver, log_stopReceiving, log_requestFc, log_startRxCfTimer, txlog_startReception]
+
+theorem rxKeep_processRx (s : State) (m : CanMsg) : RxKeep s (s.processRx m).1 := by
+  refine ⟨?_, ?_, ?_, ?_, ?_, ?_, txlog_processRx s m⟩ <;> unfold processRx startReception <;>
+    grind [deliver, stopReceiving, State.error, emit, requestFc, startRxCfTimer]
+
+theorem rxKeep_checkTimeoutsRx (s : State) : RxKeep s s.checkTimeoutsRx := by
+  unfold checkTimeoutsRx
+  split
+  · exact ⟨rfl, rfl, rfl, rfl, rfl, Nat.le_refl _, rfl⟩
+  · exact rxKeep_refl s
+
+theorem rxKeep_rxHead (s : State) (dt : Nat) (m : CanMsg) (rest : List (Nat × CanMsg)) :
+    RxKeep s ((({ s with inbox := rest, now := s.now + dt } : State).emit
+      (.rx (s.now + dt) m)).checkTimeoutsRx) :=
+  rxKeep_trans (b := (({ s with inbox := rest, now := s.now + dt } : State).emit (.rx (s.now + dt) m)))
+    ⟨rfl, rfl, rfl, rfl, rfl, Nat.le_add_right _ _, rfl⟩ (rxKeep_checkTimeoutsRx _)
+
+theorem rxKeep_rxLoop (doTx : Bool) (s : State) (st : Stats) (inb : List (Nat × CanMsg)) :
+    RxKeep s (s.rxLoop doTx st inb).1 := by
+  fun_induction rxLoop doTx s st inb with
+  | case1 s st =>
+    exact rxKeep_trans (b := (({ s with inbox := [] } : State).emit (.rxNone s.now)))
+      ⟨rfl, rfl, rfl, rfl, rfl, Nat.le_refl _, rfl⟩ (rxKeep_checkTimeoutsRx _)
+  | case2 s st dt m rest s2 s1 st2 hfm st1 s' fr st' hx =>
+    have h2 := rxKeep_processRx s1 m
+    rw [hx] at h2
+    exact rxKeep_trans (rxKeep_rxHead s dt m rest) h2
+  | case3 s st dt m rest s2 s1 st2 hfm st1 s' imm fr hx st' himm htd =>
+    have h2 := rxKeep_processRx s1 m
+    rw [hx] at h2
+    exact rxKeep_trans (rxKeep_rxHead s dt m rest) h2
+  | case4 s st dt m rest s2 s1 st2 hfm st1 s' imm fr hx st' himm htd ih =>
+    have h2 := rxKeep_processRx s1 m
+    rw [hx] at h2
+    exact rxKeep_trans (rxKeep_trans (rxKeep_rxHead s dt m rest) h2) ih
+  | case5 s st dt m rest s2 s1 st2 hfm htd => exact rxKeep_rxHead s dt m rest
+  | case6 s st dt m rest s2 s1 st2 hfm htd ih => exact rxKeep_trans (rxKeep_rxHead s dt m rest) ih
+
+/-! ### `txLoop` -/
+
+/-- The frames handed to `txfn` during one `txLoop`, oldest first. The tag is `true` for a data
+    frame (Single / First / Consecutive Frame, produced by the transmit FSM and subject to the
+    limiter) and `false` for a Flow Control frame (produced by the pending-FC branch). -/
+def txLoopFrames : Nat → State → List (Nat × CanMsg × Bool)
+  | 0, _ => []
+  | f + 1, s =>
+    if s.processTx.1.exc.isSome then [] else
+    match s.processTx.2.1 with
+    | some m =>
+      (s.now, m, !(s.pendingFc && !s.cfg.listen)) ::
+        (if s.processTx.2.2 then [] else
+          txLoopFrames f (s.processTx.1.emit (.tx s.processTx.1.now m)))
+    | none => []
+
+/-- (time, frame) of all frames -/
+def allFrames (fr : List (Nat × CanMsg × Bool)) : List (Nat × CanMsg) := fr.map (fun x => (x.1, x.2.1))
+
+/-- (time, data-field bits) of the data frames -/
+def dataBits (fr : List (Nat × CanMsg × Bool)) : List (Nat × Nat) :=
+  (fr.filter (fun x => x.2.2)).map (fun x => (x.1, 8 * x.2.1.data.length))
+
+theorem dataBits_append (a b : List (Nat × CanMsg × Bool)) : dataBits (a ++ b) = dataBits a ++ dataBits b := by
+  simp [dataBits]
+
+theorem allFrames_append (a b : List (Nat × CanMsg × Bool)) : allFrames (a ++ b) = allFrames a ++ allFrames b := by
+  simp [allFrames]
+
+theorem lastTime_const (t : Nat) (steps : List Step) (h : ∀ st ∈ steps, st.time = t) :
+    lastTime t steps = t := by
+  induction steps with
+  | nil => rfl
+  | cons st rest ih =>
+    rw [lastTime, h st List.mem_cons_self]
+    exact ih (fun x hx => h x (List.mem_cons_of_mem _ hx))
+
+structure TxLoopSpec (w : Nat) (s R : State) (F : List (Nat × CanMsg × Bool)) : Prop where
+  now : R.now = s.now
+  cfg : R.cfg = s.cfg
+  addr : R.addr = s.addr
+  standbyOk : StandbyOk R
+  txlog : txEvents R.log = (allFrames F).reverse ++ txEvents s.log
+  noStandby : s.rl.enabled = false → NoStandbySt s → NoStandbySt R
+  run : ∃ steps, Valid w s.cfg.rlBitMax 64 s.rl s.now steps ∧ (∀ st ∈ steps, st.time = s.now) ∧
+    R.rl = execAll w s.rl steps ∧ emissions steps = dataBits F
+  fcs : ∀ x ∈ F, x.2.2 = false → ∃ st, makeFlowControl s.cfg s.addr st = some x.2.1
+
+theorem txLoopSpec_refl (w : Nat) (s : State) (hsb : StandbyOk s) : TxLoopSpec w s s [] :=
+  ⟨rfl, rfl, rfl, hsb, by simp [allFrames], fun _ h => h, ⟨[], trivial, by simp, rfl, rfl⟩, by simp⟩
+
+theorem txLoopSpec_cons (w : Nat) (s s1 R : State) (m : CanMsg) (imm : Bool)
+    (F' : List (Nat × CanMsg × Bool)) (hp : PassSpec s (s1, some m, imm))
+    (hcont : TxLoopSpec w (s1.emit (.tx s1.now m)) R F') :
+    TxLoopSpec w s R ((s.now, m, !(s.pendingFc && !s.cfg.listen)) :: F') := by
+  have hnow : (s1.emit (.tx s1.now m)).now = s.now := hp.now
+  have hcfg : (s1.emit (.tx s1.now m)).cfg = s.cfg := hp.cfg
+  have hen : s1.rl.enabled = s.rl.enabled := by
+    rcases hp.kind with ⟨_, h⟩ | ⟨_, _, _, _, _, _, _, h⟩ | ⟨_, _, _, _, h, _⟩ <;> simp at h <;> rw [h]
+    simp
+  refine ⟨hcont.now.trans hnow, hcont.cfg.trans hcfg, hcont.addr.trans hp.addr, hcont.standbyOk, ?_, ?_, ?_, ?_⟩
+  · rw [hcont.txlog]
+    have : txEvents (s1.emit (.tx s1.now m)).log = (s.now, m) :: txEvents s.log := by
+      have h1 : s1.now = s.now := hp.now
+      have h2 : txEvents s1.log = txEvents s.log := hp.txlog
+      simp [emit, txEvents, h1, h2]
+    rw [this]
+    simp [allFrames]
+  · intro hd hn
+    apply hcont.noStandby
+    · show s1.rl.enabled = false
+      rw [hen]; exact hd
+    · apply hp.noStandby _ hn
+      rw [allowedBytes_disabled _ _ hd]; decide
+  · obtain ⟨steps', v', t', e', em'⟩ := hcont.run
+    rw [hnow, hcfg] at v'
+    rw [hnow] at t'
+    have hrl' : (s1.emit (.tx s1.now m)).rl = s1.rl := rfl
+    rw [hrl'] at v' e'
+    rcases hp.kind with ⟨h, _⟩ | ⟨_, _, hpf, hl, _, _, _, hrl⟩ | ⟨msg, hpl, hout, hadm, hrl, _⟩
+    · simp at h
+    · simp only [] at hrl
+      rw [hrl] at v' e'
+      refine ⟨steps', v', t', e', ?_⟩
+      rw [em']
+      simp [dataBits, hpf, hl]
+    · simp only [] at hrl hout
+      have : msg = m := by simpa using hout.symm
+      subst this
+      rw [hrl] at v' e'
+      obtain ⟨len, a1, a2, a3, a4⟩ := hadm
+      refine ⟨.emit s.now len msg.data.length :: steps', ⟨Nat.le_refl _, ⟨a1, a2, a4⟩, v'⟩, ?_, e', ?_⟩
+      · intro st hst
+        rcases List.mem_cons.mp hst with rfl | h
+        · rfl
+        · exact t' st h
+      · have htag : (!(s.pendingFc && !s.cfg.listen)) = true := by
+          rcases hpl with h | h <;> simp [h]
+        simp [emissions, em', dataBits, htag]
+  · intro x hx ht
+    rcases List.mem_cons.mp hx with rfl | hx
+    · simp only [] at ht
+      rcases hp.kind with ⟨h, _⟩ | ⟨st, msg, _, _, _, hmk, hout, _⟩ | ⟨_, hpl, _⟩
+      · simp at h
+      · simp only [] at hout
+        have : msg = m := by simpa using hout.symm
+        subst this
+        exact ⟨st, hmk⟩
+      · rcases hpl with h | h <;> simp [h] at ht
+    · have := hcont.fcs x hx ht
+      rw [hcfg] at this
+      have haddr : (s1.emit (.tx s1.now m)).addr = s.addr := hp.addr
+      rw [haddr] at this
+      exact this
+
+theorem txLoop_spec (w : Nat) (f : Nat) (s : State) (n : Nat) (hsb : StandbyOk s) :
+    TxLoopSpec w s (txLoop f s n).1 (txLoopFrames f s) := by
+  induction f generalizing s n with
+  | zero =>
+    exact ⟨rfl, rfl, rfl, hsb, by simp [txLoop, txLoopFrames, allFrames], fun _ h => h,
+      ⟨[], trivial, by simp, rfl, rfl⟩, by simp [txLoopFrames]⟩
+  | succ f ih =>
+    have hp := processTx_spec s hsb
+    unfold txLoop txLoopFrames
+    rcases hpt : s.processTx with ⟨s1, out, imm⟩
+    rw [hpt] at hp
+    simp only [] at hp ⊢
+    have hns : s.rl.enabled = false → NoStandbySt s → NoStandbySt s1 := by
+      intro hd hn
+      apply hp.noStandby _ hn
+      rw [allowedBytes_disabled _ _ hd]; decide
+    rcases hexc : s1.exc.isSome with _ | _
+    rotate_left
+    · simp only [if_true]
+      refine ⟨hp.now, hp.cfg, hp.addr, hp.standbyOk, by simpa [allFrames] using hp.txlog, hns, ?_, by simp⟩
+      refine ⟨[], trivial, by simp, ?_, rfl⟩
+      rcases hp.kind with ⟨_, h⟩ | ⟨_, _, _, _, _, _, _, h⟩ | ⟨_, _, _, _, _, h⟩
+      · exact h
+      · exact h
+      · rw [h] at hexc; simp at hexc
+    · simp only [Bool.false_eq_true, if_false]
+      cases out with
+      | none =>
+        simp only []
+        have himm : (if imm = true then (s1, n, true, false) else (s1, n, false, false)).1 = s1 := by
+          split <;> rfl
+        have : (if imm = true then (s1, n, true, false)
+            else if (none : Option CanMsg).isSome = true then txLoop f s1 n else (s1, n, false, false)).1 = s1 := by
+          split
+          · rfl
+          · simp
+        rw [this]
+        refine ⟨hp.now, hp.cfg, hp.addr, hp.standbyOk, by simpa [allFrames] using hp.txlog, hns, ?_, by simp⟩
+        refine ⟨[], trivial, by simp, ?_, rfl⟩
+        rcases hp.kind with ⟨_, h⟩ | ⟨_, _, _, _, _, _, h, _⟩ | ⟨_, _, h, _⟩
+        · exact h
+        · simp at h
+        · simp at h
+      | some m =>
+        simp only [Option.isSome_some, if_true]
+        have hsb1 : StandbyOk (s1.emit (.tx s1.now m)) := hp.standbyOk
+        cases imm with
+        | true =>
+          simp only [if_true]
+          exact txLoopSpec_cons w s s1 _ m true [] hp (txLoopSpec_refl w _ hsb1)
+        | false =>
+          simp only [Bool.false_eq_true, if_false]
+          exact txLoopSpec_cons w s s1 _ m false _ hp (ih _ _ hsb1)
+
+/-! ### `processLoop` -/
+
+/-- frames handed to `txfn` during one `process()` call (see `txLoopFrames`) -/
+def processLoopFrames : Nat → Bool → Bool → State → Stats → List (Nat × CanMsg × Bool)
+  | 0, _, _, _, _ => []
+  | f + 1, doRx, doTx, s, st =>
+    let startWithTx := doTx && !s.txQueue.isEmpty && s.rxState = .idle && s.txState = .idle
+    let r1 := if doRx && !startWithTx then s.rxLoop doTx st s.inbox else (s, st, false)
+    let s1 : State := { r1.1 with rl := r1.1.rl.update r1.1.cfg.rlWindowNs r1.1.now }
+    let r2 : State × Stats × Bool × Bool :=
+      if doTx then
+        ((txLoop s1.txFuel s1 r1.2.1.sent).1, { r1.2.1 with sent := (txLoop s1.txFuel s1 r1.2.1.sent).2.1 },
+          (txLoop s1.txFuel s1 r1.2.1.sent).2.2.1, (txLoop s1.txFuel s1 r1.2.1.sent).2.2.2)
+      else (s1, r1.2.1, false, false)
+    (if doTx then txLoopFrames s1.txFuel s1 else []) ++
+      (if r2.1.exc.isSome then [] else if r2.2.2.2 then [] else
+       if startWithTx || r1.2.2 || r2.2.2.1 then processLoopFrames f doRx doTx r2.1 r2.2.1 else [])
+
+theorem processLoop_succ (f : Nat) (doRx doTx : Bool) (s : State) (st : Stats) :
+    processLoop (f + 1) doRx doTx s st =
+    (let startWithTx := doTx && !s.txQueue.isEmpty && s.rxState = .idle && s.txState = .idle
+    let r1 := if doRx && !startWithTx then s.rxLoop doTx st s.inbox else (s, st, false)
+    let s1 : State := { r1.1 with rl := r1.1.rl.update r1.1.cfg.rlWindowNs r1.1.now }
+    let r2 : State × Stats × Bool × Bool :=
+      if doTx then
+        ((txLoop s1.txFuel s1 r1.2.1.sent).1, { r1.2.1 with sent := (txLoop s1.txFuel s1 r1.2.1.sent).2.1 },
+          (txLoop s1.txFuel s1 r1.2.1.sent).2.2.1, (txLoop s1.txFuel s1 r1.2.1.sent).2.2.2)
+      else (s1, r1.2.1, false, false)
+    if r2.1.exc.isSome then (r2.1, r2.2.1, false) else if r2.2.2.2 then (r2.1, r2.2.1, true) else
+    if startWithTx || r1.2.2 || r2.2.2.1 then processLoop f doRx doTx r2.1 r2.2.1 else (r2.1, r2.2.1, false)) := by
+  rfl
+
+/-- one `process()` call (or a whole session) as a limiter run -/
+structure LoopSpec (s R : State) (F : List (Nat × CanMsg × Bool)) : Prop where
+  cfg : R.cfg = s.cfg
+  addr : R.addr = s.addr
+  now : s.now ≤ R.now
+  standbyOk : StandbyOk R
+  txlog : txEvents R.log = (allFrames F).reverse ++ txEvents s.log
+  noStandby : s.rl.enabled = false → NoStandbySt s → NoStandbySt R
+  run : ∃ steps, Valid s.cfg.rlWindowNs s.cfg.rlBitMax 64 s.rl s.now steps ∧
+    lastTime s.now steps ≤ R.now ∧ R.rl = execAll s.cfg.rlWindowNs s.rl steps ∧
+    emissions steps = dataBits F
+  fcs : ∀ x ∈ F, x.2.2 = false → ∃ st, makeFlowControl s.cfg s.addr st = some x.2.1
+
+theorem loopSpec_refl (s : State) (hsb : StandbyOk s) : LoopSpec s s [] :=
+  ⟨rfl, rfl, Nat.le_refl _, hsb, by simp [allFrames], fun _ h => h,
+    ⟨[], trivial, Nat.le_refl _, rfl, rfl⟩, by simp⟩
+
+theorem LoopSpec.enabled {s R : State} {F : List (Nat × CanMsg × Bool)} (h : LoopSpec s R F) :
+    R.rl.enabled = s.rl.enabled := by
+  obtain ⟨steps, _, _, e, _⟩ := h.run
+  rw [e, execAll_enabled]
+
+/-- a step that leaves limiter, parked frame and tx log alone, followed by a limiter run -/
+theorem loopSpec_of_rxKeep {s sa R : State} {F : List (Nat × CanMsg × Bool)} (h1 : RxKeep s sa)
+    (h2 : LoopSpec sa R F) : LoopSpec s R F := by
+  refine ⟨h2.cfg.trans h1.cfg, h2.addr.trans h1.addr, Nat.le_trans h1.now h2.now, h2.standbyOk,
+    by rw [h2.txlog, h1.txlog], ?_, ?_, by rw [← h1.cfg, ← h1.addr]; exact h2.fcs⟩
+  · intro hd hn
+    apply h2.noStandby (by rw [h1.rl]; exact hd)
+    unfold NoStandbySt at hn ⊢; rw [h1.txState]; exact hn
+  · obtain ⟨steps, v, lt, e, em⟩ := h2.run
+    rw [h1.cfg, h1.rl] at v e
+    refine ⟨steps, valid_mono_t0 _ _ _ _ _ _ _ v h1.now, ?_, e, em⟩
+    cases steps with
+    | nil => exact Nat.le_trans h1.now h2.now
+    | cons st rest => exact lt
+
+theorem loopSpec_step {s sa sb R : State} {Fb Fc : List (Nat × CanMsg × Bool)} (h1 : RxKeep s sa)
+    (h2 : TxLoopSpec s.cfg.rlWindowNs { sa with rl := sa.rl.update sa.cfg.rlWindowNs sa.now } sb Fb)
+    (h3 : LoopSpec sb R Fc) : LoopSpec s R (Fb ++ Fc) := by
+  have hcfg : sb.cfg = s.cfg := h2.cfg.trans h1.cfg
+  have hnow : sb.now = sa.now := h2.now
+  have hfcs : ∀ x ∈ Fb ++ Fc, x.2.2 = false → ∃ st, makeFlowControl s.cfg s.addr st = some x.2.1 := by
+    intro x hx ht
+    rcases List.mem_append.mp hx with hx | hx
+    · have := h2.fcs x hx ht
+      have e1 : ({ sa with rl := sa.rl.update sa.cfg.rlWindowNs sa.now } : State).cfg = s.cfg := h1.cfg
+      have e2 : ({ sa with rl := sa.rl.update sa.cfg.rlWindowNs sa.now } : State).addr = s.addr := h1.addr
+      rw [e1, e2] at this; exact this
+    · have := h3.fcs x hx ht
+      rw [hcfg, h2.addr.trans h1.addr] at this; exact this
+  refine ⟨h3.cfg.trans hcfg, h3.addr.trans (h2.addr.trans h1.addr),
+    Nat.le_trans h1.now (hnow ▸ h3.now), h3.standbyOk, ?_, ?_, ?_, hfcs⟩
+  · rw [h3.txlog, h2.txlog]
+    have : txEvents ({ sa with rl := sa.rl.update sa.cfg.rlWindowNs sa.now } : State).log = txEvents s.log :=
+      h1.txlog
+    rw [this, allFrames_append]; simp
+  · intro hd hn
+    apply h3.noStandby
+    · obtain ⟨steps, _, _, e, _⟩ := h2.run
+      rw [e, execAll_enabled]
+      show (sa.rl.update sa.cfg.rlWindowNs sa.now).enabled = false
+      rw [update_enabled, h1.rl]; exact hd
+    · apply h2.noStandby
+      · show (sa.rl.update sa.cfg.rlWindowNs sa.now).enabled = false
+        rw [update_enabled, h1.rl]; exact hd
+      · unfold NoStandbySt at hn ⊢
+        show sa.txState ≠ _ ∧ sa.txState ≠ _
+        rw [h1.txState]; exact hn
+  · obtain ⟨stB, vB, tB, eB, emB⟩ := h2.run
+    obtain ⟨stC, vC, ltC, eC, emC⟩ := h3.run
+    have hrl1 : ({ sa with rl := sa.rl.update sa.cfg.rlWindowNs sa.now } : State).rl
+        = s.rl.update s.cfg.rlWindowNs sa.now := by
+      show sa.rl.update sa.cfg.rlWindowNs sa.now = _
+      rw [h1.rl, h1.cfg]
+    have hcfg1 : ({ sa with rl := sa.rl.update sa.cfg.rlWindowNs sa.now } : State).cfg = s.cfg := h1.cfg
+    have hnow1 : ({ sa with rl := sa.rl.update sa.cfg.rlWindowNs sa.now } : State).now = sa.now := rfl
+    rw [hrl1, hcfg1, hnow1] at vB
+    rw [hnow1] at tB
+    rw [hrl1] at eB
+    rw [hcfg, eB, hnow] at vC
+    rw [hcfg, eB] at eC
+    rw [hnow] at ltC
+    have hlt : lastTime sa.now stB = sa.now := lastTime_const _ _ tB
+    refine ⟨.update sa.now :: (stB ++ stC), ⟨h1.now, trivial, ?_⟩, ?_, ?_, ?_⟩
+    · exact (valid_append _ _ _ _ _ _ _).mpr ⟨vB, by
+        show Valid _ _ _ _ (lastTime sa.now stB) stC
+        rw [hlt]; exact vC⟩
+    · show lastTime sa.now (stB ++ stC) ≤ R.now
+      rw [lastTime_append, hlt]; exact ltC
+    · show R.rl = execAll s.cfg.rlWindowNs (s.rl.update s.cfg.rlWindowNs sa.now) (stB ++ stC)
+      rw [execAll_append]; exact eC
+    · show emissions (stB ++ stC) = _
+      rw [emissions_append, emB, emC, dataBits_append]
+
+theorem processLoop_spec (f : Nat) (doRx doTx : Bool) (s : State) (st : Stats) (hsb : StandbyOk s) :
+    LoopSpec s (processLoop f doRx doTx s st).1 (processLoopFrames f doRx doTx s st) := by
+  induction f generalizing s st with
+  | zero => exact loopSpec_refl s hsb
+  | succ f ih =>
+    rw [processLoop_succ]
+    unfold processLoopFrames
+    simp only []
+    generalize (doTx && !s.txQueue.isEmpty && decide (s.rxState = .idle) && decide (s.txState = .idle)) = swt
+    -- rx phase
+    have h1 : RxKeep s (if (doRx && !swt) = true then s.rxLoop doTx st s.inbox else (s, st, false)).1 := by
+      split
+      · exact rxKeep_rxLoop _ _ _ _
+      · exact rxKeep_refl s
+    generalize (if (doRx && !swt) = true then s.rxLoop doTx st s.inbox else (s, st, false)) = r1 at h1 ⊢
+    obtain ⟨sa, sta, rxRun⟩ := r1
+    simp only [] at h1 ⊢
+    have hsba : StandbyOk ({ sa with rl := sa.rl.update sa.cfg.rlWindowNs sa.now } : State) := by
+      intro m hm; exact hsb m (h1.standby ▸ hm)
+    cases doTx with
+    | false =>
+      simp only [Bool.false_eq_true, if_false, List.nil_append]
+      have h2 : TxLoopSpec s.cfg.rlWindowNs { sa with rl := sa.rl.update sa.cfg.rlWindowNs sa.now }
+          { sa with rl := sa.rl.update sa.cfg.rlWindowNs sa.now } [] := txLoopSpec_refl _ _ hsba
+      split
+      · exact loopSpec_step h1 h2 (loopSpec_refl _ hsba)
+      · split
+        · exact loopSpec_step h1 h2 (ih _ _ hsba)
+        · exact loopSpec_step h1 h2 (loopSpec_refl _ hsba)
+    | true =>
+      simp only [if_true]
+      have h2 := txLoop_spec s.cfg.rlWindowNs
+        ({ sa with rl := sa.rl.update sa.cfg.rlWindowNs sa.now } : State).txFuel
+        { sa with rl := sa.rl.update sa.cfg.rlWindowNs sa.now } sta.sent hsba
+      have hsbb := h2.standbyOk
+      split
+      · simpa using loopSpec_step h1 h2 (loopSpec_refl _ hsbb)
+      · split
+        · simpa using loopSpec_step h1 h2 (loopSpec_refl _ hsbb)
+        · split
+          · exact loopSpec_step h1 h2 (ih _ _ hsbb)
+          · simpa using loopSpec_step h1 h2 (loopSpec_refl _ hsbb)
+
+/-! ### sessions: any sequence of API calls between two `reset()` -/
+
+theorem rxKeep_send (s : State) (a : SendArgs) : RxKeep s (s.send a).1 := by
+  unfold send
+  simp only []
+  repeat' split
+  all_goals exact ⟨rfl, rfl, rfl, rfl, rfl, Nat.le_refl _, rfl⟩
+
+theorem rxKeep_recv (s : State) : RxKeep s s.recv.1 := by
+  unfold recv
+  split <;> exact ⟨rfl, rfl, rfl, rfl, rfl, Nat.le_refl _, rfl⟩
+
+theorem rxKeep_advance (s : State) (dt : Nat) : RxKeep s (s.advance dt) :=
+  ⟨rfl, rfl, rfl, rfl, rfl, Nat.le_add_right _ _, rfl⟩
+
+theorem rxKeep_pushFrame (s : State) (dt : Nat) (m : CanMsg) : RxKeep s (s.pushFrame dt m) :=
+  ⟨rfl, rfl, rfl, rfl, rfl, Nat.le_refl _, rfl⟩
+
+theorem lastTime_le_of_le (t t' u : Nat) (steps : List Step) (h : lastTime t steps ≤ u) (h' : t' ≤ u)
+    (hne : steps = [] → t' ≤ u) : lastTime t' steps ≤ u := by
+  cases steps with
+  | nil => exact h'
+  | cons st rest => exact h
+
+theorem loopSpec_trans {a b c : State} {F1 F2 : List (Nat × CanMsg × Bool)} (h1 : LoopSpec a b F1)
+    (h2 : LoopSpec b c F2) : LoopSpec a c (F1 ++ F2) := by
+  have hfcs : ∀ x ∈ F1 ++ F2, x.2.2 = false → ∃ st, makeFlowControl a.cfg a.addr st = some x.2.1 := by
+    intro x hx ht
+    rcases List.mem_append.mp hx with hx | hx
+    · exact h1.fcs x hx ht
+    · have := h2.fcs x hx ht
+      rw [h1.cfg, h1.addr] at this; exact this
+  refine ⟨h2.cfg.trans h1.cfg, h2.addr.trans h1.addr, Nat.le_trans h1.now h2.now, h2.standbyOk, ?_, ?_, ?_,
+    hfcs⟩
+  · rw [h2.txlog, h1.txlog, allFrames_append]; simp
+  · intro hd hn
+    exact h2.noStandby (by rw [h1.enabled]; exact hd) (h1.noStandby hd hn)
+  · obtain ⟨st1, v1, lt1, e1, em1⟩ := h1.run
+    obtain ⟨st2, v2, lt2, e2, em2⟩ := h2.run
+    rw [h1.cfg, e1] at v2 e2
+    refine ⟨st1 ++ st2, ?_, ?_, ?_, ?_⟩
+    · exact (valid_append _ _ _ _ _ _ _).mpr ⟨v1, valid_mono_t0 _ _ _ _ _ _ _ v2 lt1⟩
+    · rw [lastTime_append]
+      cases st2 with
+      | nil => exact Nat.le_trans lt1 h2.now
+      | cons x rest => exact lt2
+    · rw [execAll_append]; exact e2
+    · rw [emissions_append, em1, em2, dataBits_append]
+
+/-- The states reachable from a freshly configured layer by `process()`, `send()`, `recv()`, clock
+    advance and bus input (everything except `reset()`), together with the frames handed to `txfn`
+    so far (oldest first, tagged data / flow-control). -/
+inductive Session (c : Cfg) (ad : Addr) : State → List (Nat × CanMsg × Bool) → Prop
+  | init : Session c ad (State.init c ad) []
+  | send {s F} (a : SendArgs) : Session c ad s F → Session c ad (s.send a).1 F
+  | recv {s F} : Session c ad s F → Session c ad s.recv.1 F
+  | advance {s F} (dt : Nat) : Session c ad s F → Session c ad (s.advance dt) F
+  | push {s F} (dt : Nat) (m : CanMsg) : Session c ad s F → Session c ad (s.pushFrame dt m) F
+  | process {s F} (doRx doTx : Bool) : Session c ad s F →
+      Session c ad (s.process doRx doTx).1 (F ++ processLoopFrames s.processFuel doRx doTx s {})
+
+theorem loopSpec_then_rxKeep {a b c : State} {F : List (Nat × CanMsg × Bool)} (h1 : LoopSpec a b F)
+    (h2 : RxKeep b c) : LoopSpec a c F := by
+  have hsb : StandbyOk c := by
+    intro m hm; exact h1.standbyOk m (h2.standby ▸ hm)
+  simpa using loopSpec_trans h1 (loopSpec_of_rxKeep h2 (loopSpec_refl c hsb))
+
+theorem session_loopSpec {c : Cfg} {ad : Addr} {s : State} {F : List (Nat × CanMsg × Bool)}
+    (h : Session c ad s F) : LoopSpec (State.init c ad) s F := by
+  induction h with
+  | init => exact loopSpec_refl _ (by intro m hm; simp [State.init] at hm)
+  | send a _ ih => exact loopSpec_then_rxKeep ih (rxKeep_send _ a)
+  | recv _ ih => exact loopSpec_then_rxKeep ih (rxKeep_recv _)
+  | advance dt _ ih => exact loopSpec_then_rxKeep ih (rxKeep_advance _ dt)
+  | push dt m _ ih => exact loopSpec_then_rxKeep ih (rxKeep_pushFrame _ dt m)
+  | process doRx doTx _ ih => exact loopSpec_trans ih (processLoop_spec _ doRx doTx _ _ ih.standbyOk)
+/-! ## Part E — progress and delay-only -/
+
+theorem txPrefix_len_le (h : Half) : h.txPrefix.length ≤ 1 := by
+  unfold Half.txPrefix; split <;> simp
+
+theorem valid_txDl (c : Cfg) (h : c.valid = true) : 8 ≤ c.txDl ∧ c.txDl ≤ 64 ∧ c.txDl * 8 ≤ c.rlBitMax ∧
+    validTxDl c.txDl = true := by
+  unfold Cfg.valid at h
+  simp only [Bool.and_eq_true, decide_eq_true_eq] at h
+  obtain ⟨⟨⟨⟨⟨h1, _⟩, _⟩, _⟩, _⟩, h6⟩ := h
+  refine ⟨?_, ?_, h6, h1⟩ <;> (unfold validTxDl at h1; simp at h1; omega)
+
+theorem nearestFd_le_txDl {n f d : Nat} (h : nearestFd n = some f) (hd : validTxDl d = true) (hn : n ≤ d) :
+    f ≤ d := by
+  unfold nearestFd at h
+  unfold validTxDl at hd
+  simp at hd
+  repeat' split at h
+  all_goals first | contradiction | (injection h with h; omega)
+
+theorem padLen_le_txDl {c : Cfg} {n t : Nat} (hv : c.valid = true) (hn : n ≤ c.txDl)
+    (h : padLen c n = some t) : t ≤ c.txDl := by
+  have hv' := valid_txDl c hv
+  have hm : ∀ m, c.txMinLen = some m → m ≤ c.txDl := by
+    intro m hm
+    unfold Cfg.valid at hv
+    simp only [Bool.and_eq_true, decide_eq_true_eq, hm] at hv
+    exact hv.1.2.2
+  unfold padLen at h
+  split at h
+  · rename_i h8
+    split at h
+    · split at h <;> (injection h with h; omega)
+    · rename_i m hmm
+      have := hm m hmm
+      injection h with h; omega
+  · split at h
+    · split at h
+      · contradiction
+      · rename_i f hf
+        have hf' := nearestFd_le_txDl hf hv'.2.2.2 hn
+        split at h
+        · injection h with h; omega
+        · rename_i m hmm
+          have := hm m hmm
+          injection h with h; omega
+    · injection h with h; omega
+
+theorem makeTxMsg_le_txDl {c : Cfg} {a : Addr} {i : Nat} {d : Bytes} {msg : CanMsg} (hv : c.valid = true)
+    (hd : d.length ≤ c.txDl) (h : makeTxMsg c a i d = some msg) : msg.data.length ≤ c.txDl := by
+  unfold makeTxMsg at h
+  split at h
+  · contradiction
+  · rename_i pd hpd
+    split at h
+    · contradiction
+    · injection h with h; subst h
+      simp only
+      unfold pad at hpd
+      split at hpd
+      · contradiction
+      · rename_i t ht
+        injection hpd with hpd; subst hpd
+        have := padLen_le_txDl hv hd ht
+        simp; omega
+
+/-- with a validated configuration a built frame fits the configured `tx_data_length` -/
+def BuiltLe (d : Nat) : Built → Prop
+  | .fail _ => True
+  | .sf _ len msg => len ≤ d ∧ msg.data.length ≤ d
+  | .ff _ len msg => len ≤ d ∧ msg.data.length ≤ d
+
+theorem buildSf_le (s : State) (r : Req) (b : Bool) (hv : s.cfg.valid = true)
+    (hfit : r.size + (if b then 1 else 2) + s.txPrefixLen ≤ s.cfg.txDl) :
+    BuiltLe s.cfg.txDl (buildSf s r b) := by
+  have hs := same_consumeActive s r r.size true
+  have hl := consumeActive_len s r r.size true
+  unfold buildSf
+  rcases hca : s.consumeActive r r.size true with ⟨s1, r1, _ | payload⟩ <;> rw [hca] at hs hl <;>
+    simp only [] at hs hl ⊢
+  · trivial
+  · split
+    · trivial
+    · rename_i msg hm
+      have hpl := hl payload rfl
+      have hlen : (s1.addr.tx.txPrefix ++ (if b = true then [u8 payload.length] else [0, u8 payload.length])
+          ++ payload).length ≤ s.cfg.txDl := by
+        simp only [List.length_append]
+        rw [hs.addr]
+        unfold txPrefixLen at hfit
+        split <;> simp_all <;> omega
+      rw [hs.cfg] at hm
+      exact ⟨hlen, makeTxMsg_le_txDl hv hlen hm⟩
+
+theorem buildFf_le (s : State) (r : Req) (hv : s.cfg.valid = true) :
+    BuiltLe s.cfg.txDl (buildFf s r s.txPrefixLen) := by
+  have hv' := valid_txDl s.cfg hv
+  have hp := txPrefix_len_le s.addr.tx
+  unfold buildFf
+  simp only []
+  have hs := same_consumeActive s r
+    (if r.size ≤ 0xFFF then s.cfg.txDl - 2 - s.txPrefixLen else s.cfg.txDl - 6 - s.txPrefixLen) true
+  have hl := consumeActive_len s r
+    (if r.size ≤ 0xFFF then s.cfg.txDl - 2 - s.txPrefixLen else s.cfg.txDl - 6 - s.txPrefixLen) true
+  rcases hca : s.consumeActive r (if r.size ≤ 0xFFF then s.cfg.txDl - 2 - s.txPrefixLen
+      else s.cfg.txDl - 6 - s.txPrefixLen) true
+    with ⟨s1, r1, _ | payload⟩ <;> rw [hca] at hs hl <;> simp only [] at hs hl ⊢
+  · trivial
+  · split
+    · trivial
+    · rename_i msg hm
+      have hpl := hl payload rfl
+      have hlen : (s1.addr.tx.txPrefix ++ (if r.size ≤ 0xFFF then [u8 (0x10 + r.size / 256 % 16), u8 (r.size % 256)]
+          else [0x10, 0x00, u8 (r.size / 16777216 % 256), u8 (r.size / 65536 % 256), u8 (r.size / 256 % 256),
+            u8 (r.size % 256)]) ++ payload).length ≤ s.cfg.txDl := by
+        simp only [List.length_append]
+        rw [hs.addr]
+        unfold txPrefixLen at hpl
+        split <;> simp_all <;> omega
+      rw [hs.cfg] at hm
+      exact ⟨hlen, makeTxMsg_le_txDl hv hlen hm⟩
+
+theorem builtLe_ite (d : Nat) (c : Prop) [Decidable c] (x y : Built) (hx : c → BuiltLe d x)
+    (hy : BuiltLe d y) : BuiltLe d (if c then x else y) := by
+  split
+  · exact hx ‹_›
+  · exact hy
+
+theorem buildTx_le (s : State) (r : Req) (hv : s.cfg.valid = true) :
+    BuiltLe s.cfg.txDl (buildTx s r) := by
+  unfold buildTx
+  exact builtLe_ite _ _ _ _ (fun h => buildSf_le s r _ hv h)
+    (buildFf_le { s with txFrameLen := r.size } r hv)
+
+/-- once the limiter allows a full frame (`allowed ≥ tx_data_length`) a new transmission starts
+    exactly as without limiter -/
+theorem startTx_unthrottled (s : State) (r : Req) (a : Nat) (hv : s.cfg.valid = true)
+    (ha : s.cfg.txDl ≤ a) : s.startTx r a = s.startTx r noLimit := by
+  have hv' := valid_txDl s.cfg hv
+  have hb := buildTx_le s r hv
+  rw [startTx_eq, startTx_eq]
+  rcases hbt : buildTx s r with s' | ⟨s1, len, msg⟩ | ⟨s1, len, msg⟩ <;> rw [hbt] at hb <;>
+    simp only [dispatch, BuiltLe, noLimit] at hb ⊢
+  · have h1 : ¬ len > a := by omega
+    have h2 : ¬ len > 4294967295 := by omega
+    simp only [h1, h2, if_false]
+  · have h1 : len ≤ a := by omega
+    have h2 : len ≤ 4294967295 := by omega
+    simp only [h1, h2, if_true]
+
+/-- the limiter only chooses between sending and parking the frame that `startTx` builds: either
+    the pass is exactly the unlimited one, or the very frame the unlimited pass would have sent
+    is parked and nothing is sent -/
+theorem startTx_delay_only (s : State) (r : Req) (a : Nat) :
+    s.startTx r a = s.startTx r noLimit ∨
+    ∃ msg, (s.startTx r noLimit).2 = some msg ∧ (s.startTx r a).2 = none ∧
+      (s.startTx r a).1.standby = some msg ∧
+      ((s.startTx r a).1.txState = .sfStandby ∨ (s.startTx r a).1.txState = .ffStandby) := by
+  have hb := buildTx_spec s r
+  rw [startTx_eq, startTx_eq]
+  rcases hbt : buildTx s r with s' | ⟨s1, len, msg⟩ | ⟨s1, len, msg⟩ <;> rw [hbt] at hb <;>
+    simp only [dispatch, BuiltOk, noLimit] at hb ⊢
+  · exact Or.inl trivial
+  · have h2 : ¬ len > 4294967295 := by omega
+    by_cases h1 : len > a
+    · simp only [h1, h2, if_true, if_false]
+      exact Or.inr ⟨msg, by simp⟩
+    · simp only [h1, h2, if_false]
+      exact Or.inl trivial
+  · have h2 : len ≤ 4294967295 := by omega
+    by_cases h1 : len ≤ a
+    · simp only [h1, h2, if_true]
+      exact Or.inl trivial
+    · simp only [h1, h2, if_true, if_false]
+      exact Or.inr ⟨msg, by simp⟩
+
+/-- a frame parked by `startTx` fits the configured `tx_data_length` -/
+theorem startTx_parked_le (s : State) (r : Req) (a : Nat) (hv : s.cfg.valid = true)
+    (hn : NoStandbySt s)
+    (hst : (s.startTx r a).1.txState = .sfStandby ∨ (s.startTx r a).1.txState = .ffStandby) :
+    ∃ msg, (s.startTx r a).1.standby = some msg ∧ msg.data.length ≤ s.cfg.txDl := by
+  have hb := buildTx_spec s r
+  have hl := buildTx_le s r hv
+  unfold NoStandbySt at hn
+  rw [startTx_eq] at hst ⊢
+  rcases hbt : buildTx s r with s' | ⟨s1, len, msg⟩ | ⟨s1, len, msg⟩ <;> rw [hbt] at hb hl hst <;>
+    simp only [dispatch, BuiltOk, BuiltLe] at hb hl hst ⊢
+  · rcases hb.2.2 with h | h <;> rw [h] at hst <;> simp_all
+  · split at hst
+    · rename_i h1
+      simp only [h1, if_true]
+      exact ⟨msg, rfl, hl.2⟩
+    · simp at hst
+  · split at hst
+    · simp [startRxFcTimer] at hst
+    · rename_i h1
+      simp only [h1, if_false]
+      exact ⟨msg, rfl, hl.2⟩
+
+/-- a due Consecutive Frame is never withheld once the limiter allows a full frame -/
+theorem not_cfHeld_of_le (s : State) (a : Nat) (ha : s.cfg.txDl ≤ a) : ¬ cfHeld s a := by
+  rintro ⟨rbs, r, _, _, _, h⟩
+  omega
+
+@[simp] theorem stopSending_exc (s : State) (b : Bool) : (s.stopSending b).exc = s.exc := by
+  unfold stopSending; split <;> rfl
+@[simp] theorem stopSending_rl (s : State) (b : Bool) : (s.stopSending b).rl = s.rl :=
+  (same_stopSending s b).rl
+@[simp] theorem stopSending_now (s : State) (b : Bool) : (s.stopSending b).now = s.now :=
+  (same_stopSending s b).now
+
+/-- A parked frame is released, unchanged, by the first `processTx` pass in which the limiter
+    allows its length (the pass must reach the state machine: no pending / received Flow Control,
+    no N_Bs timeout, no earlier exception). -/
+theorem standby_released (s : State) (msg : CanMsg)
+    (hst : s.txState = .sfStandby ∨ s.txState = .ffStandby) (hsb : s.standby = some msg)
+    (hfit : msg.data.length ≤ s.rl.allowedBytes s.cfg.rlBitMax)
+    (hpf : s.pendingFc = false) (hfc : s.lastFc = none) (hto : s.timerFc.timedOut s.now = false)
+    (hact : s.active.isSome = true) (hexc : s.exc = none) :
+    s.processTx.2.1 = some msg ∧ s.processTx.1.standby = none ∧ NoStandbySt s.processTx.1 ∧
+    s.processTx.1.rl = s.rl.inform s.now msg.data.length := by
+  have e0 : ({ s with lastFc := none } : State) = s := by
+    cases s; simp_all
+  have e1 : txPend s = (s, none) := by simp [txPend, hpf]
+  have e2 : txFcIn s = (s, false) := by simp [txFcIn, hfc, e0]
+  have e3 : txGuard s = s := by simp [txGuard, hto]
+  have e4 : txDone s = s := by simp [txDone, hsb]
+  have hact' : s.active.isNone = false := by
+    cases h : s.active <;> simp_all
+  rw [processTx_eq, e1]
+  simp only [e2, e3, e4, hact', Bool.and_false, Bool.false_eq_true, if_false]
+  rcases hst with h | h
+  · simp [txFsm, txAccount, h, hsb, hfit, hexc, NoStandbySt]
+  · simp [txFsm, txAccount, h, hsb, hfit, hexc, NoStandbySt, startRxFcTimer]
+
+/-- after an idle period longer than the window the limiter allows a full frame again -/
+theorem allowed_after_expiry (l : Limiter) (c : Cfg) (now : Nat) (hen : l.enabled = true)
+    (hinv : LimInv l) (hv : c.valid = true) (h : ∀ e ∈ l.slots, now - e.1 > c.rlWindowNs) :
+    c.txDl ≤ (l.update c.rlWindowNs now).allowedBytes c.rlBitMax := by
+  have hu := update_all_expired l c.rlWindowNs now hen hinv h
+  have hv' := valid_txDl c hv
+  rw [allowedBytes_enabled _ _ (by simp [hen]), hu.2]
+  omega
+
+theorem le_getLast_of_sorted (sl : List (Nat × Nat)) (z : Nat × Nat)
+    (hs : sl.Pairwise (fun a b => a.1 ≤ b.1)) (hz : sl.getLast? = some z) : ∀ e ∈ sl, e.1 ≤ z.1 := by
+  induction sl with
+  | nil => simp
+  | cons x rest ih =>
+    intro e he
+    cases rest with
+    | nil =>
+      simp at hz he; subst hz; subst he; exact Nat.le_refl _
+    | cons y rest' =>
+      have hz' : (y :: rest').getLast? = some z := by simpa [List.getLast?_cons_cons] using hz
+      rcases List.mem_cons.mp he with rfl | he
+      · exact List.rel_of_pairwise_cons hs (List.mem_of_getLast? hz')
+      · exact ih (List.Pairwise.of_cons hs) hz' e he
+
+/-- it is enough that the newest slot is older than the window -/
+theorem all_expired_of_last (l : Limiter) (w now : Nat) (hinv : LimInv l)
+    (h : ∀ z, l.slots.getLast? = some z → z.1 + w < now) : ∀ e ∈ l.slots, now - e.1 > w := by
+  intro e he
+  cases hz : l.slots.getLast? with
+  | none => simp [List.getLast?_eq_none_iff] at hz; rw [hz] at he; simp at he
+  | some z =>
+    have := le_getLast_of_sorted l.slots z hinv.sorted hz e he
+    have := h z hz
+    omega
 end Isotp.C15
